@@ -195,64 +195,66 @@ def gluedPair (p : T → Bool) : List T → Nat → Bool
 
 /-! ## the parser -/
 
-/-- `Base.__new__(cls, string)` with `fuel` levels of Python recursion left.
-`viaMatch` is `cls.match(string)` (a `NoMatchError` escaping from a child is caught by
-`__new__`, so a failing child = no match); `none` ⇒ loop over `Base.subclasses[cls]`. -/
+/-- `cls.match(string)` for the class described by `row`; `rec c s` stands for the nested
+constructor call `c(s)` (a `NoMatchError` escaping from a child is caught by the calling
+`Base.__new__`, so a failing child = no match). -/
+def matchStep (rec : Lv → List T → Option Ex) (row : Row) (ts : List T) : Option Ex :=
+  match row.kind, row.lhs, row.rhs with
+  | .binL, some lhs, some rhs =>                     -- BinaryOpBase.match, right=True
+    if gluedPair row.cls.test ts 0 then none         -- rsplit: `"" in t[1:-1]`
+    else match splitLast row.cls.test ts 0 with
+      | some (l, o, r) =>
+        if l = [] ∨ r = [] then none                 -- `if not lhs or not rhs`
+        else if row.excl ∧ o.excluded then none      -- exclude_op_pattern.match(oper)
+        else match rec rhs r with                    -- split closest to the right: rhs first
+          | some R => match rec lhs l with
+            | some L => some (.bin o L R)
+            | none => none
+          | none => none
+      | none => none
+  | .binR, some lhs, some rhs =>                     -- BinaryOpBase.match, right=False
+    match splitFirst row.cls.test ts 0 with
+      | some (l, o, r) =>
+        if l = [] ∨ r = [] then none
+        else if row.excl ∧ o.excluded then none
+        else match rec lhs l with                    -- lhs first
+          | some L => match rec rhs r with
+            | some R => some (.bin o L R)
+            | none => none
+          | none => none
+      | none => none
+  | .unary, _, some rhs =>                           -- UnaryOpBase.match
+    match ts with
+    | o :: r =>
+      if row.cls.test o ∧ r ≠ [] then
+        match rec rhs r with
+        | some R => some (.un o R)
+        | none => none
+      else none
+    | [] => none
+  | .prim, _, some inner =>                          -- no match(): the subclasses of Primary
+    match ts with
+    | [.atom i d g] => some (.atom i d g)            -- an opaque operand class matches
+    | .lp :: rest =>                                 -- Parenthesis: BracketBase.match("()", Expr, s)
+      match rest.getLast?, rest.dropLast with
+      | some .rp, mid =>
+        if mid = [] then none
+        else match rec inner mid with
+          | some e => some (.paren e)
+          | none => none
+      | _, _ => none
+    | _ => none
+  | _, _, _ => none
+
+/-- `Base.__new__(cls, string)` with `fuel` levels of Python recursion left: try
+`cls.match(string)`; on `None`/`NoMatchError` loop over `Base.subclasses[cls]`. -/
 def parseF : Nat → Lv → List T → Option Ex
   | 0, _, _ => none
   | fuel+1, k, ts =>
-    let row := rowOf k
-    let viaMatch : Option Ex :=
-      match row.kind, row.lhs, row.rhs with
-      | .binL, some lhs, some rhs =>
-        if gluedPair row.cls.test ts 0 then none
-        else match splitLast row.cls.test ts 0 with
-          | some (l, o, r) =>
-            if l = [] ∨ r = [] then none
-            else if row.excl ∧ o.excluded then none
-            else match parseF fuel rhs r with      -- right=True: rhs first
-              | some R => match parseF fuel lhs l with
-                | some L => some (.bin o L R)
-                | none => none
-              | none => none
-          | none => none
-      | .binR, some lhs, some rhs =>
-        match splitFirst row.cls.test ts 0 with
-          | some (l, o, r) =>
-            if l = [] ∨ r = [] then none
-            else if row.excl ∧ o.excluded then none
-            else match parseF fuel lhs l with      -- right=False: lhs first
-              | some L => match parseF fuel rhs r with
-                | some R => some (.bin o L R)
-                | none => none
-              | none => none
-          | none => none
-      | .unary, _, some rhs =>
-        match ts with
-        | o :: r =>
-          if row.cls.test o ∧ r ≠ [] then
-            match parseF fuel rhs r with
-            | some R => some (.un o R)
-            | none => none
-          else none
-        | [] => none
-      | .prim, _, some inner =>
-        match ts with
-        | [.atom i d g] => some (.atom i d g)          -- an opaque operand class matches
-        | .lp :: rest =>                               -- Parenthesis: BracketBase.match
-          match rest.getLast?, rest.dropLast with
-          | some .rp, mid =>
-            if mid = [] then none
-            else match parseF fuel inner mid with
-              | some e => some (.paren e)
-              | none => none
-          | _, _ => none
-        | _ => none
-      | _, _, _ => none
-    match viaMatch with
+    match matchStep (parseF fuel) (rowOf k) ts with
     | some e => some e
     | none =>
-      match row.next with
+      match (rowOf k).next with
       | some k' => parseF fuel k' ts
       | none => none
 
